@@ -400,7 +400,7 @@ def run_fuzz(k, seed, known_buckets):
     d = tempfile.mkdtemp(prefix="einxverif_fuzz_")
     try:
         frag = os.path.join(d, "frag.json")
-        runs = int(os.environ.get("VERIF_FUZZ_RUNS", FUZZ_RUNS))
+        runs = max(1000, int(int(os.environ.get("VERIF_FUZZ_RUNS", FUZZ_RUNS)) * common.SCALE))
         mode = "seeded" if k % 2 else "empty"
         cmd = [sys.executable, "-W", "ignore", "-m", "einxverif.fuzz_parser", frag, str(runs), str(seed * 100 + k + 1), mode, json.dumps(sorted(known_buckets))]
         subprocess.run(cmd, stdout=subprocess.DEVNULL, stderr=subprocess.DEVNULL, timeout=6 * 3600)
